@@ -2,7 +2,7 @@
 
 MC   : MC_SymCtx — the context machine (reset on a version marker, replace, append, import resolution
        against a catalogue) keeps the system prefix, never renumbers on append, forgets on reset.
-GEN  : every stream of up to N items over {version marker, 45 replacing tables (9 import lists x 5 symbol
+GEN  : every stream of up to N items over {version marker, 50 replacing tables (10 import lists x 5 symbol
        lists, two of them with elements that are not strings), 4 appending tables, 9 symbol IDs} for each of 5 catalogues (history in state, tlc -dump),
        plus seeded longer streams; each rendered in binary (spec encoder under choice streams) and text.
        Expected: the specification's decoder on the rendered bytes, which must agree with the machine.
@@ -18,7 +18,7 @@ import time
 from vlib import core, rt
 
 PROP = "C10"
-NTABLES = 1 + 45 + 4          # version marker, 9 import lists x 5 symbol lists replacing, 4 appending
+NTABLES = 1 + 50 + 4          # version marker, 10 import lists x 5 symbol lists replacing, 4 appending
 NITEMS = NTABLES + 9            # + 9 symbol IDs
 
 
@@ -68,7 +68,7 @@ def judge(wd, cases, tag="c10"):
 
 def run(tier):
     t0 = time.time()
-    maxlen, nlong = (2, 400) if tier == "quick" else (3, 6000)
+    maxlen, nlong = (2, 400) if tier == "quick" else (2, 8000)
     verdicts = core.Verdicts(PROP)
     with core.Workdir("c10") as wd:
         dm = wd.sub("mc")
@@ -94,12 +94,28 @@ def run(tier):
         allh = sorted(hists)
         prefixes = {(c, h[:-1]) for c, h in allh}
         leaves = [(c, h) for c, h in allh if (c, h) not in prefixes]
+        # structured streams of three and four items (the exhaustive part stops at two): every replacing table followed
+        # by every appending table and every symbol ID; two appends; a version marker between tables; in the thorough
+        # tier every pair of replacing tables
+        ncat = len({c for c, _ in allh})
+        REPL, APP, VALS = range(2, NTABLES - 3), range(NTABLES - 3, NTABLES + 1), range(NTABLES + 1, NITEMS + 1)
+        fam = []
+        for c in range(1, ncat + 1):
+            fam += [(c, (r, a, v)) for r in REPL for a in APP for v in VALS]
+            fam += [(c, (a, b, v)) for a in APP for b in APP for v in VALS]
+            fam += [(c, (r, 1, a, v)) for r in REPL[::3] for a in APP for v in VALS]
+            fam += [(c, (r, v, a, v)) for r in REPL[::2] for a in APP[:2] for v in VALS[3:]]
+            if tier != "quick":
+                fam += [(c, (r, q, v)) for r in REPL for q in REPL for v in VALS]
         rnd = random.Random(core.seed() * 104729 + 10)
+        if tier == "quick":
+            fam = rnd.sample(fam, 2500)      # a seeded sixth of the structured streams; the thorough tier runs them all
+        leaves += fam
         for _ in range(nlong):
             n = rnd.randint(3, 8)
             # bias towards tables followed by values
             h = tuple(rnd.choice([rnd.randint(1, NTABLES), rnd.randint(NTABLES + 1, NITEMS), rnd.randint(NTABLES + 1, NITEMS)]) for _ in range(n))
-            leaves.append((rnd.randint(1, 5), h))
+            leaves.append((rnd.randint(1, ncat), h))
         nsh = 12
         shards = core.shard(leaves, nsh)
 
@@ -130,8 +146,10 @@ def run(tier):
         core.write_evidence(PROP, tier, "model_checking", dict(
             states=rmc["distinct"], transitions=rmc["generated"], traces_validated_against_impl=len(cases),
             evaluations=len(cases), distinct_nontrivial=len({(json.dumps(c["cat"]), tuple(c["h"])) for c in cases if len(c["h"]) >= 2}),
-            rule="streams = leaves of the history tree of MC_SymCtx (all item sequences up to length %d, 5 catalogues) + %d "
-                 "seeded streams of 3..8 items; each rendered in binary and text; non-trivial = at least two items" % (maxlen, nlong),
+            rule="streams = leaves of the history tree of MC_SymCtx (all item sequences up to length %d, %d catalogues) + %d structured "
+                 "streams (replace-append-value, append-append-value, replace-marker-append-value, replace-value-append-value%s) + %d "
+                 "seeded streams of 3..8 items; each rendered in binary and text; non-trivial = at least two items"
+                 % (maxlen, ncat, len(fam), "" if tier == "quick" else ", replace-replace-value", nlong),
             exhaustive=True, expected_reject=sum(1 for c in cases if c["expect"] == "reject"),
             rejected=len(bad), known_findings=verdicts.known,
             samples=[dict(fmt=c["fmt"], items=c["h"], doc=(bytes(c["bytes"]).hex() if c["fmt"] == "binary" else bytes(c["bytes"]).decode())[:200])
